@@ -139,7 +139,7 @@ fn mk_config(c: &Cfg3, counter: Option<Arc<AtomicUsize>>) -> ModuleConfig {
     cfg
 }
 
-fn run_case(case: &str, wasm: &[u8], c3: &Cfg3, script: &str, ver: &str, stats: &mut Stats) {
+fn run_case(case: &str, wasm: &[u8], c3: &Cfg3, script: &str, ver: &str, with_corr: bool, stats: &mut Stats) {
     let prop = std::env::var("VERIF_PROPERTY").unwrap_or_default();
     let input = match decode::decode(wasm) {
         Ok(m) => Some(m),
@@ -164,16 +164,23 @@ fn run_case(case: &str, wasm: &[u8], c3: &Cfg3, script: &str, ver: &str, stats: 
     let counter = Arc::new(AtomicUsize::new(0));
     let cfg = mk_config(c3, Some(counter.clone()));
     let parsed = out::catch(|| cfg.parse(wasm));
-    let wasm_hex_only = format!("{} {}{}{} {}", script, c3.skip_name as u8, c3.skip_producers as u8, c3.dwarf as u8, hex(wasm));
+    let wasm_hex_only = format!("{} {}{}{}{} {}", script, c3.skip_name as u8, c3.skip_producers as u8, c3.dwarf as u8, !with_corr as u8, hex(wasm));
+    // inputs outside the slice the model of this suite describes (full name sections) are judged by
+    // the oracles only
+    let corr = |case: &str, nontrivial: bool, req: &str, observed: &str| {
+        if with_corr {
+            out::corr(case, nontrivial, req, observed);
+        }
+    };
     let mut module = match parsed {
         Err(p) => {
-            out::corr(case, false, &req, "PANIC");
+            corr(case, false, &req, "PANIC");
             out::oracle(case, false, "C05:parse-panic", &format!("parse panicked: {} | only: {}", p, wasm_hex_only));
             return;
         }
         Ok(Err(_)) => {
             let calls = counter.load(Ordering::SeqCst);
-            out::corr(case, true, &req, "err");
+            corr(case, true, &req, "err");
             stats.rejected += 1;
             if prop == "C14" {
                 out::oracle(case, calls == 0, "C14:callback-on-failed-parse", &format!("parse failed but the callback ran {} times | only: {}", calls, wasm_hex_only));
@@ -192,14 +199,14 @@ fn run_case(case: &str, wasm: &[u8], c3: &Cfg3, script: &str, ver: &str, stats: 
             'e' => match out::catch(|| module.emit_wasm()) {
                 Ok(b) => outs.push(b),
                 Err(p) => {
-                    out::corr(case, false, &req, "PANIC-EMIT");
+                    corr(case, false, &req, "PANIC-EMIT");
                     out::oracle(case, false, "C02:emit-panic", &format!("emit panicked: {} | only: {}", p, wasm_hex_only));
                     return;
                 }
             },
             'g' => {
                 if out::catch(|| walrus::passes::gc::run(&mut module)).is_err() {
-                    out::corr(case, false, &req, "PANIC-GC");
+                    corr(case, false, &req, "PANIC-GC");
                     return;
                 }
             }
@@ -209,7 +216,7 @@ fn run_case(case: &str, wasm: &[u8], c3: &Cfg3, script: &str, ver: &str, stats: 
     let decoded: Vec<Option<AMod>> = outs.iter().map(|b| decode::decode(b).ok()).collect();
     let observed = format!("calls={} {}", calls, decoded.iter().map(|d| d.as_ref().map(canon_out).unwrap_or("UNDECODABLE".into())).collect::<Vec<_>>().join(" | "));
     let nontrivial = n_unknown > 0 || input.as_ref().map(|m| m.customs.len() > 0).unwrap_or(false);
-    out::corr(case, nontrivial, &req, &observed);
+    corr(case, nontrivial, &req, &observed);
     stats.accepted += 1;
     stats.unknown_customs += n_unknown;
     stats.emits += outs.len();
@@ -272,7 +279,16 @@ fn run_case(case: &str, wasm: &[u8], c3: &Cfg3, script: &str, ver: &str, stats: 
                         Ok(b3) => {
                             if b3 != outs[0] {
                                 ok = false;
-                                out::oracle(case, false, "C08:not-a-fixpoint", &format!("re-parsing walrus's output and emitting again changes it ({}) | only: {}", first_section_diff(&outs[0], &b3), wasm_hex_only));
+                                // one shape has a name of its own: the first output carries a
+                                // `.debug_line_str` section although it has no `.debug_line` (strings
+                                // of a line program that did not survive), the second drops it, and
+                                // nothing else differs
+                                let s1 = all_sections(&outs[0]);
+                                let s3 = all_sections(&b3);
+                                let orphan = s1.iter().all(|x| x.0 != "custom:.debug_line")
+                                    && s1.iter().filter(|x| x.0 != "custom:.debug_line_str").cloned().collect::<Vec<_>>() == s3;
+                                let key = if orphan { "C08:not-a-fixpoint-orphan-debug-line-str-dropped-by-second-round-trip" } else { "C08:not-a-fixpoint" };
+                                out::oracle(case, false, key, &format!("re-parsing walrus's output and emitting again changes it ({}) | only: {}", first_section_diff(&outs[0], &b3), wasm_hex_only));
                             }
                         }
                         Err(p) => {
@@ -379,6 +395,11 @@ fn run_case(case: &str, wasm: &[u8], c3: &Cfg3, script: &str, ver: &str, stats: 
         }
         // DWARF
         let has_debug_out = ocustoms.iter().any(|c| c.0.starts_with(".debug"));
+        let has_info_in = input.customs.iter().any(|c| c.name == ".debug_info" && !c.data.is_empty());
+        if c3.dwarf && has_info_in && !ocustoms.iter().any(|c| c.0 == ".debug_info" && !c.1.is_empty()) {
+            ok = false;
+            fail("C14:dwarf-missing-when-enabled", "the input carries .debug_info and DWARF generation is on, but the output has no .debug_info".into());
+        }
         if has_debug_out && !c3.dwarf {
             ok = false;
             fail("C14:dwarf-emitted-when-off", "DWARF sections in the output although DWARF generation is off".into());
@@ -424,6 +445,52 @@ struct Stats {
     unknown_customs: usize,
     emits: usize,
     samples: usize,
+    real_dwarf: usize,
+    full_names: usize,
+}
+
+/// a module without local functions: imported functions, a memory, a global, exports, active data
+fn no_code_module(rng: &mut Rng) -> Vec<u8> {
+    use wasm_encoder::*;
+    let mut m = Module::new();
+    let mut types = TypeSection::new();
+    types.function([ValType::I32], []);
+    types.function([], [ValType::I64]);
+    m.section(&types);
+    let mut imports = ImportSection::new();
+    let ni = rng.below(3);
+    for i in 0..ni {
+        imports.import("env", &format!("f{}", i), EntityType::Function((i % 2) as u32));
+    }
+    if ni > 0 {
+        m.section(&imports);
+    }
+    let mut mem = MemorySection::new();
+    mem.memory(MemoryType { minimum: 1, maximum: Some(2), memory64: false, shared: false, page_size_log2: None });
+    m.section(&mem);
+    let mut gl = GlobalSection::new();
+    gl.global(GlobalType { val_type: ValType::I32, mutable: false, shared: false }, &ConstExpr::i32_const(rng.below(100) as i32));
+    m.section(&gl);
+    let mut ex = ExportSection::new();
+    ex.export("memory", ExportKind::Memory, 0);
+    ex.export("g", ExportKind::Global, 0);
+    if ni > 0 && rng.chance(1, 2) {
+        ex.export("reexport", ExportKind::Func, 0);
+    }
+    m.section(&ex);
+    let mut data = DataSection::new();
+    let bytes: Vec<u8> = (0..rng.range(1, 40)).map(|_| rng.next() as u8).collect();
+    data.active(0, &ConstExpr::i32_const(rng.below(1000) as i32), bytes);
+    m.section(&data);
+    if rng.chance(1, 2) {
+        let mut names = NameSection::new();
+        names.module("nocode");
+        m.section(&names);
+    }
+    if rng.chance(1, 2) {
+        m.section(&CustomSection { name: std::borrow::Cow::Borrowed("extra"), data: std::borrow::Cow::Borrowed(&[1, 2, 3]) });
+    }
+    m.finish()
 }
 
 fn corrupt(rng: &mut Rng, wasm: &[u8]) -> Vec<u8> {
@@ -453,7 +520,7 @@ pub fn main(seed: u64, tier: &str, only: Option<&str>) {
         let f: Vec<&str> = o.split(' ').collect();
         let bits: Vec<char> = f[1].chars().collect();
         let c3 = Cfg3 { skip_name: bits[0] == '1', skip_producers: bits[1] == '1', dwarf: bits[2] == '1' };
-        run_case("replay", &out::unhex(f[2]), &c3, f[0], &ver, &mut stats);
+        run_case("replay", &out::unhex(f[2]), &c3, f[0], &ver, bits.get(3) != Some(&'1'), &mut stats);
         return;
     }
     let n = if tier == "thorough" { 5000 * crate::out::thorough_scale() } else { 320 };
@@ -474,14 +541,54 @@ pub fn main(seed: u64, tier: &str, only: Option<&str>) {
         let c3 = Cfg3 { skip_name: rng.chance(1, 2), skip_producers: rng.chance(1, 2), dwarf: rng.chance(1, 3) };
         g.junk_debug = !c3.dwarf;
         let (mut wasm, _) = gen::gen_valid(&mut rng, &g);
-        // more custom sections: the generator sprinkles them with probability 1/4 per boundary
+        // every sixth input has no local function at all (imports, a memory, data)
+        if case % 6 == 5 {
+            wasm = no_code_module(&mut rng);
+        }
+        // damaged inputs (before any DWARF is attached: what walrus does with damaged DWARF when the
+        // switch is on is not this suite's subject)
         if rng.chance(1, 7) {
             wasm = corrupt(&mut rng, &wasm);
         }
+        // real DWARF (the junk `.debug_*` sections above only exist with the switch off: walrus
+        // reads them when it is on); with the switch on it has to reach the output
+        if (c3.dwarf || rng.chance(1, 4)) && rng.chance(2, 3) {
+            if let Ok(a) = decode::decode(&wasm) {
+                if a.customs.iter().all(|c| !c.name.starts_with(".debug")) {
+                    wasm = crate::dwarf::synthesize(&wasm, &a, if rng.chance(1, 2) { 4 } else { 5 }, 1).0;
+                    stats.real_dwarf += 1;
+                }
+            }
+        }
         let script = *rng.pick(&scripts);
         nconfigs.insert((c3.skip_name, c3.skip_producers, c3.dwarf, script));
-        run_case(&format!("s{}", case), &wasm, &c3, script, &ver, &mut stats);
+        run_case(&format!("s{}", case), &wasm, &c3, script, &ver, true, &mut stats);
     }
+    // C08 also over what this suite's model does not describe: full name sections (function, local,
+    // type, table, memory, global, element names) on modules with more functions
+    if std::env::var("VERIF_PROPERTY").unwrap_or_default() == "C08" {
+        for case in 0..n / 2 {
+            let mut rng = Rng::new(seed ^ 0x5ec8, case as u64);
+            let mut g = if case % 4 == 0 { GenCfg::mvp() } else { GenCfg::random(&mut rng) };
+            g.customs = rng.chance(1, 2);
+            g.names = true;
+            g.names_simple = false;
+            g.names_module = true;
+            g.producers = rng.chance(1, 2);
+            g.import_mem64 = false;
+            g.big_offsets = false;
+            g.extern_elem_global = false;
+            g.max_funcs = 12;
+            g.junk_debug = false;
+            let c3 = Cfg3 { skip_name: rng.chance(1, 8), skip_producers: rng.chance(1, 2), dwarf: false };
+            let (wasm, _) = gen::gen_valid(&mut rng, &g);
+            let script = *rng.pick(&["e", "ee", "ege"]);
+            run_case(&format!("x{}", case), &wasm, &c3, script, &ver, false, &mut stats);
+            stats.full_names += 1;
+        }
+    }
+    out::stat("sections.real_dwarf_inputs", stats.real_dwarf);
+    out::stat("sections.full_name_section_inputs", stats.full_names);
     out::stat("sections.accepted", stats.accepted);
     out::stat("sections.rejected_inputs", stats.rejected);
     out::stat("sections.unknown_custom_sections", stats.unknown_customs);
